@@ -137,6 +137,8 @@ def judge_errors(ck, cases, results):
         mm = re.search(r'^\s*(\d+) │  .*FAILED AT THIS LINE', ctx, re.M)
         if mm and int(mm.group(1)) != ln:
             problems.append('contextualize marks line %s, the structured report says line %d' % (mm.group(1), ln))
+        if ctx and not mm:
+            problems.append('contextualize marks no line of its excerpt, the structured report says line %d' % ln)
         hdr = re.search(r'\[(?:Source file: (.*):(\d+):(\d+)|line (\d+), column (\d+))\]', ctx)
         if hdr:
             hl = int(hdr.group(2) or hdr.group(4))
